@@ -999,7 +999,7 @@ Section DelivStep2.
             assert (Ek : mem s0 kids = true) by (rewrite Eg in Hsplit; simpl in Hsplit; congruence).
             rewrite Eg in A3. simpl in A3. rewrite Ek in Qa, Qe. simpl in Qa, Qe.
             exists [e]. rewrite Hch, acc_app, del_app, mis_app, A1, A2, A3, !app_nil_r.
-            split; [exact H1|]. split; [exact H2|].
+            split; [exact H1|]. split; [intros Hx; simpl; rewrite Er; exact (H2 Hx)|].
             right. exists e. split; auto. fold thr' in Qa. split; lia.
       - assert (Ek : mem s0 kids && negb (ev_bad e) = false).
         { destruct (mem s0 kids) eqn:E1; auto. rewrite E1, orb_true_r in Hsplit. rewrite Hsplit in Em. exact Em. }
